@@ -14,10 +14,8 @@ caught = set(r.split("|")[1].strip() for r in rows if "| caught (run" in r)
 missed_final = [n for n in names if n not in caught]
 before_missed = sorted(set(r.split("|")[1].strip() for r in rows if "| MISSED | caught" in r))
 rounds = len(set(n.split("-")[1] for n in agent if len(n.split("-")) == 3))
-summary = ("**Result.** %d seeded changes (%d from sub-agents in " + str(rounds) + " rounds, %d of my own). With the final checks, quick tier: %d caught, %d not caught "
-           "(%s). Measured misses of earlier versions of the checks that the strengthening closed: %d (%s).\n\n" % (
-               len(names), len(agent), len(own), len(caught), len(missed_final), ", ".join(missed_final) or "none",
-               len(before_missed), ", ".join(before_missed)))
+summary = "**Result.** %d seeded changes (%d from sub-agents in %d rounds, %d of my own). With the final checks, quick tier: %d caught, %d not caught (%s). Measured misses of earlier versions of the checks that the strengthening closed: %d (%s).\n\n" % (
+    len(names), len(agent), rounds, len(own), len(caught), len(missed_final), ", ".join(missed_final) or "none", len(before_missed), ", ".join(before_missed))
 block = "<!-- SEEDED_TABLE begin -->\n" + summary + table + "\n<!-- SEEDED_TABLE end -->"
 if "@@SEEDED_TABLE@@" in s:
     s = s.replace("@@SEEDED_TABLE@@", block)
